@@ -8,7 +8,7 @@
     (thorough) or a 2^18 lattice (quick) are compared with a transliteration of the Nearest operator and every
     disagreement, near-tie and a stratified sample are forwarded to TLC, which alone decides.
 """
-import json, os
+import json, os, subprocess
 import vlib
 
 
@@ -26,7 +26,20 @@ def run(chk):
     wd = vlib.workdir("c10")
     shards = 8 if quick else 16
     prefix = os.path.join(wd, "lo")
-    out = vlib.run_harness(vh, ["lossy-record", chk.seed, 0 if quick else 1, shards, prefix], timeout=7200).stdout
+    # totality includes returning at all: the recorder normally needs seconds (quick) / a few minutes (thorough)
+    limit = 240 if quick else 2400
+    try:
+        out = vlib.run_harness(vh, ["lossy-record", chk.seed, 0 if quick else 1, shards, prefix], timeout=limit, raise_timeout=True).stdout
+    except subprocess.TimeoutExpired:
+        last = ""
+        try:
+            last = [l for l in open(prefix + "-0.ndjson").read().split("\n") if l.strip()][-1][:300]
+        except (OSError, IndexError):
+            pass
+        chk.violation("a lossy conversion did not return: the recorder made no progress for %d s (last recorded conversion: %s)" % (limit, last),
+                      {"kind": "lossy-hang", "limit_s": limit, "last_recorded": last})
+        chk.exhaustive = False
+        return
     summ = json.loads(out.strip().split("\n")[-1])["summary"]
 
     def val(k):
@@ -46,6 +59,10 @@ def run(chk):
 
 
 def replay(obj):
+    if obj.get("kind") == "lossy-hang":
+        print(json.dumps(obj))
+        print("re-run: python3 tools/verif.py check C10 (the recorder hangs in the conversion that follows the last recorded one)")
+        return 1
     wd = vlib.workdir("replay")
     p = os.path.join(wd, "e.ndjson")
     vlib.write_lines(p, [obj["event"]])
